@@ -345,5 +345,7 @@ pub fn run(ctx: &Ctx) -> &'static str {
         |_| check,
     );
     crate::props::c06_shell::run(ctx);
+    // the mode flag as the real loop hands it to housekeeping, across runtime mode switches
+    crate::props::e2e::run(ctx, crate::props::e2e::Phase::ModeTicks, ctx.tier.pick(1, 2));
     "exploration"
 }
